@@ -15,10 +15,12 @@ std::vector<std::vector<std::string>> kShapes = {
     /*3 nested-only population*/ {"s1", "s1/a", "s1/a/x", "t1", "t1/a"},
     /*4 same-named children*/ {"s1", "s1/s1", "s1/s10", "s10", "s10/s1"},
     /*5 wide*/ {"s1", "s1/a", "s10", "s10/a", "s1x", "s1x/a", "t1", "t1/a"},
+    /*6 a cgroup NAME that contains a glob metacharacter ('w*' is a literal directory name) next to a sibling its name would match as a pattern*/
+    {"s1", "s1/w*", "s1/w*/k", "s1/w-x", "s1/w-x/k", "t1"},
 };
 const char* kPlugins[] = {"kill_by_memory_size_or_growth", "kill_by_pressure", "kill_by_swap_usage", "kill_by_io_cost",
                           "kill_by_pg_scan"};
-const char* kPatterns[] = {"s1", "s*", "s?", "s1,t1", "*/a", "s1/*", "/"};
+const char* kPatterns[] = {"s1", "s*", "s?", "s1,t1", "*/a", "s1/*", "/", "s1/w?"};
 // population patterns: how many processes each node of the shape gets
 // 0: every leaf 1 proc; 1: first leaf 23 procs (> streaming size 20), others 1; 2: a "0" line in the first leaf;
 // 3: internal nodes populated too; 4: only the deepest leaf populated
@@ -67,7 +69,7 @@ struct C01 : vr::Driver {
     acVals = th ? std::vector<int>{0, 1} : std::vector<int>{0};
     // dims: shape, pop, plugin, pattern, recursive, kernelkill, outcome, history, reap, always_continue,
     //       prekill hook (none / matches everything and stays pending for one tick, so the kill is deferred and resumed)
-    mx.dims = {kShapes.size(), 7, plugins.size(), 7, 2, 2, 4, hists.size(), reapVals.size(), acVals.size(), 2};
+    mx.dims = {kShapes.size(), 7, plugins.size(), 8, 2, 2, 4, hists.size(), reapVals.size(), acVals.size(), 2};
   }
   size_t count() override { return mx.total(); }
   size_t chunk() override { return 16; }
@@ -210,9 +212,9 @@ struct C01 : vr::Driver {
     if (!o.attempts.empty()) r.nontrivial(s.plugin + s.args["cgroup"] + ob.str());
   }
   std::string rule() override {
-    return "full product of: 6 tree shapes with glob-ambiguous names (s1,s10,s1x,.s1,t1; up to 3 levels) x 7 population patterns "
-           "(1 proc per leaf, 23 procs, a '0' line, populated internal nodes, nested-only, pids.current reading 0 while populated, no pids.current) x kill plugin x 7 cgroup arguments "
-           "(literal, s*, s?, multi, */a, s1/*, root) x recursive x kernelkill x 4 kill-outcome policies (all die, all ESRCH, "
+    return "full product of: 7 tree shapes with glob-ambiguous names (s1,s10,s1x,.s1,t1; a directory literally named 'w*'; up to 3 levels) x 7 population patterns "
+           "(1 proc per leaf, 23 procs, a '0' line, populated internal nodes, nested-only, pids.current reading 0 while populated, no pids.current) x kill plugin x 8 cgroup arguments "
+           "(literal, s*, s?, multi, */a, s1/*, root, s1/w?) x recursive x kernelkill x 4 kill-outcome policies (all die, all ESRCH, "
            "first EPERM, first lingers) x prekill hook {none, pending for one tick} x multi-tick history (none / vanish / sibling appears / re-created) [x reap_memory x "
            "always_continue in thorough]; each scenario runs the real plugin wet through Oomd::run; monitor: SIGKILL only, pid>0, "
            "pid listed in the selected victim's subtree, victim legal under an independent matcher, xattr/cgroup.kill/freeze "
